@@ -102,6 +102,12 @@ def c04(ck, thorough):
            {"A": a, "ChunkSize": cs, "MaxSparse": ms, "KindOne": ms + 1, "KindDense": ms + 2,
             "NextIds": "{3, 7}", "Pids": "{0, 1}", "MaxMatches": 3},
            ["LookupOK", "FailOK", "MatchesOK", "LenOK", "OneHasNoMatch"])
+    # the whole contiguous automaton: states written one after the other (new id = offset), then
+    # every id rewritten in place through index_to_state_id
+    mc(ck, "ACContig", "c04_contig",
+       {"A": 4, "ChunkSize": 2, "MaxSparse": 3, "KindOne": 4, "KindDense": 5, "NextIds": "{3}", "Pids": "{0}",
+        "MaxMatches": 2, "N": 6 if thorough else 5},
+       ["OrderKept", "SentinelsKept", "Tiling", "DecodeOK", "WalkOK"], spec="CSpec")
     # one DFA row filled from a sparse NFA state through the byte classes (sparse_iter)
     mc(ck, "ACDfaRow", "c04_dfarow", {"MaxByte": 6 if thorough else 5, "NextIds": "{3, 7}"},
        ["OncePerClass", "RowCorrect", "RepInClass", "ClassesRespectTransitions"])
